@@ -46,6 +46,8 @@ type genInfo struct {
 	toVictim func(d *world.Datagram) bool
 	fg       *forger // nil while the victim holds no record keys
 	epochNow uint16  // highest epoch the victim can read
+	victimEst bool // the victim's handshake has completed
+	cbc       bool // the negotiated suite is a CBC suite
 	// nextType is the handshake type the victim would plausibly receive next (for quick-tier products).
 	nextType byte
 }
@@ -297,6 +299,15 @@ type hsShape struct {
 	mseqName       string
 }
 
+// isComplete: the fragment is a whole (tiny) message.
+func (s hsShape) isComplete() bool { return s.off == 0 && s.flen == s.length && s.length <= 12 }
+
+// hangSuspect: a complete handshake message at (or next to) the expected message_seq of an ESTABLISHED
+// endpoint: the post-handshake processing of DTLS 1.3 once spun forever on such a message. Isolated.
+func hangSuspect(gi *genInfo, mseq uint16) bool {
+	return gi.victimEst && (mseq == gi.cur || mseq == gi.cur-1 || mseq == gi.cur+1)
+}
+
 // isF1Shape: a fragment that makes the message "complete" with total length 0 although no fragment sits
 // at offset 0 (length=0, fragment_length=0, fragment_offset!=0).
 func (s hsShape) isF1Shape() bool { return s.length == 0 && s.flen == 0 && s.off != 0 }
@@ -317,7 +328,7 @@ func hsShapes(gi *genInfo, full bool) []hsShape {
 	mseqs := []struct {
 		v uint16
 		n string
-	}{{0, "0"}, {gi.cur, "cur"}, {gi.cur + 1, "cur+1"}, {0xffff, "ffff"}}
+	}{{0, "0"}, {gi.cur - 1, "cur-1"}, {gi.cur, "cur"}, {gi.cur + 1, "cur+1"}, {0xffff, "ffff"}}
 	var out []hsShape
 	seen := map[[5]uint32]bool{}
 	add := func(t byte, l uint32, m int, off, fl uint32) {
@@ -347,10 +358,10 @@ func hsShapes(gi *genInfo, full bool) []hsShape {
 	}
 	// quick: the full (length x message_seq x offset x fragment_length) product for six types, and a
 	// pairwise-complete covering of all five fields for the remaining types
-	for _, t := range []byte{gi.nextType, 1, 16, 20, 0, 255} {
+	for _, t := range []byte{gi.nextType, 1, 4, 16, 20, 24, 0, 255} {
 		inner(t)
 	}
-	for _, r := range pairwise([]int{len(hsTypes), len(hsLens), 4, 4, 4}) {
+	for _, r := range pairwise([]int{len(hsTypes), len(hsLens), len(mseqs), 4, 4}) {
 		l := hsLens[r[1]]
 		offs := []uint32{0, 1, l, 1<<24 - 1}
 		add(hsTypes[r[0]], l, r[2], offs[r[3]], offs[r[4]])
@@ -364,6 +375,8 @@ func genHsHdr(gi *genInfo) []*input {
 		in := g.raw(s.String()+" (plaintext epoch 0)", plain12(22, 0, uint64(0x100000+i), s.bytes()))
 		if s.isF1Shape() && s.mseq >= gi.cur {
 			in.suspect = "F1"
+		} else if s.isComplete() && hangSuspect(gi, s.mseq) {
+			in.suspect = "HANG"
 		}
 	}
 	return g.out
@@ -453,8 +466,11 @@ func genMsgTrunc(gi *genInfo) []*input {
 			}
 			seenBody[k] = true
 			seq++
-			g.raw(fmt.Sprintf("genuine %s#%d truncated to %d/%d at mseq=cur", world.HSName(m.typ), m.mseq, l, len(m.body)),
+			in := g.raw(fmt.Sprintf("genuine %s#%d truncated to %d/%d at mseq=cur", world.HSName(m.typ), m.mseq, l, len(m.body)),
 				plain12(22, 0, seq, hsMessage(m.typ, gi.cur, m.body[:l])))
+			if gi.victimEst {
+				in.suspect = "HANG"
+			}
 		}
 	}
 	// key-exchange bodies of length 0..3
@@ -465,6 +481,8 @@ func genMsgTrunc(gi *genInfo) []*input {
 			in := g.raw(fmt.Sprintf("%s body=%x kx=%s at mseq=cur", world.HSName(t), b, gi.kx), plain12(22, 0, seq, hsMessage(t, gi.cur, b)))
 			if t == 16 && !gi.victimIsClient && len(b) <= 3 && gi.kx != "13" {
 				in.suspect = "F3"
+			} else if gi.victimEst {
+				in.suspect = "HANG"
 			}
 		}
 	}
@@ -609,7 +627,7 @@ func genCorrupt(gi *genInfo) []*input {
 	}
 	// key-less CBC constructions from captured protected records (DTLS 1.2 legacy records of epoch >= 1)
 	for _, d := range distinctDatagrams(gi) {
-		if !gi.toVictim(d) {
+		if !gi.toVictim(d) || !gi.cbc {
 			continue
 		}
 		recs, _ := world.ParseDatagram(d.Data, gi.vw.cidLen)
@@ -726,7 +744,7 @@ func genAuth(gi *genInfo) []*input {
 			typ  byte
 			body []byte
 		}
-		msgs := []hm{{"KeyUpdate", 24, []byte{0}}, {"KeyUpdate", 24, []byte{1}}, {"KeyUpdate", 24, []byte{2}}, {"KeyUpdate", 24, []byte{0, 0}}}
+		msgs := []hm{{"ClientHello", 1, filler(40)}, {"KeyUpdate", 24, []byte{0}}, {"KeyUpdate", 24, []byte{1}}, {"KeyUpdate", 24, []byte{2}}, {"KeyUpdate", 24, []byte{0, 0}}}
 		nst := append([]byte{0, 0, 0x1c, 0x20, 1, 2, 3, 4, 8}, filler(8)...)
 		nst = append(nst, 0, 16)
 		nst = append(nst, filler(16)...)
@@ -748,8 +766,11 @@ func genAuth(gi *genInfo) []*input {
 						// a VALID KeyUpdate from "the peer" rotates the victim's receive keys; the genuine peer did not
 						// rotate: only the forger could go on talking. Kept (it must not crash) but it may end the session.
 					}
-					g.forged(fmt.Sprintf("%s truncated to %d/%d at mseq=%s", m.name, l, len(m.body), ms.n)+ep,
+					in := g.forged(fmt.Sprintf("%s truncated to %d/%d at mseq=%s", m.name, l, len(m.body), ms.n)+ep,
 						&forgeSpec{typ: 22, epoch: e, payload: hsMessage(m.typ, ms.v, m.body[:l])}, "auth/handshake-message", mayAbort)
+					if gi.victimEst {
+						in.suspect = "HANG"
+					}
 				}
 			}
 		}
@@ -758,6 +779,8 @@ func genAuth(gi *genInfo) []*input {
 			in := g.forged(s.String()+ep, &forgeSpec{typ: 22, epoch: e, payload: s.bytes()}, "auth/handshake-fragment", mayAbort)
 			if s.isF1Shape() && s.mseq >= gi.cur {
 				in.suspect = "F1"
+			} else if s.isComplete() && hangSuspect(gi, s.mseq) {
+				in.suspect = "HANG"
 			}
 		}
 		// CBC: padding length byte exceeding the record (built by hand: plaintext || MAC || padding)
